@@ -349,15 +349,19 @@ def check_c11(chk, args):
     cases = {}
     meta = {}
     nprints = 0
-    for vi, v in enumerate(vals):
+    printed = [(v, v) for v in vals]
+    # depth x comments: the same trees with comment wrappers (a commented dict value is rendered a second time, lazily,
+    # with a context of its own); comments are inert, so the cut is that of the plain tree
+    printed += [(with_comments(rng, v), v) for v in vals[::2] if type(v) in (list, tuple, dict) and height(v) >= 2]
+    for vi, (pv, v) in enumerate(printed):
         h = height(v)
-        base = safe_print(chk, 'C11', v, {'value': repr(v)[:300], 'config': {'depth': None}}, depth=None, width=79)
+        base = safe_print(chk, 'C11', pv, {'value': repr(v)[:300], 'config': {'depth': None}}, depth=None, width=79)
         for d in list(range(0, h + 3)):
-            for w in ((79,) if q else (1, 30, 79)):
+            for w in ((79,) if q and pv is v else (1, 30, 79)):
                 nprints += 1
                 cfg = {'depth': d, 'width': w}
-                desc = {'value': repr(v)[:300], 'config': cfg}
-                out = safe_print(chk, 'C11', v, desc, **cfg)
+                desc = {'value': repr(v)[:300], 'config': cfg, 'commented': pv is not v}
+                out = safe_print(chk, 'C11', pv, desc, **cfg)
                 if out is None:
                     continue
                 desc['output'] = out
